@@ -196,6 +196,13 @@ func (r *ClientRun) run(tag string) {
 							cc.H2.Fr.WriteWindowUpdate(sid, 2000+sid)
 						case "priority":
 							cc.H2.Fr.WritePriority(sid+1000, xhttp2.PriorityParam{StreamDep: 0, Weight: uint8(sid)})
+						case "priority-flood":
+							// (once per connection) more PRIORITY frames than any default limit of the proxy
+							if i == 0 {
+								for k := 0; k < 10050; k++ {
+									cc.H2.Fr.WritePriority(uint32(3001+2*(k%40)), xhttp2.PriorityParam{StreamDep: 0, Weight: uint8(k)})
+								}
+							}
 						case "ping":
 							cc.H2.Fr.WritePing(false, [8]byte{byte(sid)})
 						case "settings":
